@@ -784,7 +784,7 @@ fn minimise(case: &Case, f: Found) -> (Case, Found) {
 pub fn run_shard(ctx: &ShardCtx, rep: &mut Report) {
     crate::engine::discard_stderr();
     let total: u64 = match ctx.tier {
-        Tier::Quick => ctx.scaled(1400) as u64,
+        Tier::Quick => ctx.scaled(3500) as u64,
         Tier::Thorough => ctx.scaled(150_000) as u64,
     };
     for i in 0..total {
